@@ -234,7 +234,7 @@ type c21Wire struct {
 
 	localChecked, localAtLimit, localBeyondInitial int64
 	maxSent, maxRaised, maxProcessed, staleMax     int64
-	peerFrames, skippedUnknown                     int64
+	peerFrames, skippedUnknown, implicit           int64
 	zeroSlack                                      int64 // MAX_STREAMS sent with v == appClosed+configured exactly
 }
 
@@ -369,6 +369,9 @@ func (w *c21Wire) observe(ev *vlpEvent, viol vlpViolFunc) {
 						sh.beyond = fmt.Sprintf("%s processed %s for peer %s stream number %d in packet %d although it had only advertised %d", ev.Side, f.Kind, c21TypeName(typ), num, ev.Num, adv)
 					}
 					continue
+				}
+				if num > sh.peerOpened[typ] {
+					w.implicit++ // lower-numbered streams are opened implicitly (reordered arrival)
 				}
 				sh.peerOpened[typ] = max(sh.peerOpened[typ], num+1)
 				if closed := w.appClosed[side][typ].Load(); sh.beyond == "" && sh.peerOpened[typ]-closed > w.eff[side][typ] {
@@ -959,6 +962,7 @@ func TestVerif_C21(t *testing.T) {
 		r.Event("lossy_local_stream_frames_at_limit_minus_one", w.localAtLimit)
 		r.Event("lossy_local_stream_frames_beyond_initial_limit", w.localBeyondInitial)
 		r.Event("lossy_peer_stream_frames_checked", w.peerFrames)
+		r.Event("lossy_peer_frames_opening_lower_streams_implicitly", w.implicit)
 		r.Event("lossy_max_streams_sent_checked", w.maxSent)
 		r.Event("lossy_max_streams_sent_raising", w.maxRaised)
 		r.Event("lossy_max_streams_sent_with_zero_slack", w.zeroSlack)
@@ -966,8 +970,10 @@ func TestVerif_C21(t *testing.T) {
 		r.Event("lossy_max_streams_processed_stale", w.staleMax)
 		r.Event("lossy_checks_skipped_params_unknown", w.skippedUnknown)
 		r.Event("lossy_datagrams_dropped", res.Dropped)
-		r.Sample(map[string]any{"kind": "lossy", "cfg": lc.Cfg, "want": lc.Want, "opened": res.Opened, "accepted": res.Accepted, "app_closed": res.AppClosed,
-			"max_streams_sent": w.maxSent, "raising": w.maxRaised, "frames_checked": w.localChecked, "at_limit": w.localAtLimit, "virtual_ms": res.VirtualMs, "stuck": res.Stuck})
+		if c.Index < 2 {
+			r.Sample(map[string]any{"kind": "lossy", "cfg": lc.Cfg, "want": lc.Want, "opened": res.Opened, "accepted": res.Accepted, "app_closed": res.AppClosed,
+				"max_streams_sent": w.maxSent, "raising": w.maxRaised, "frames_checked": w.localChecked, "at_limit": w.localAtLimit, "virtual_ms": res.VirtualMs, "ended_blocked": res.Stuck})
+		}
 	})
 
 	r.Note("wall time of lossy-limits: %.1fs", time.Since(phaseStart).Seconds())
@@ -1166,7 +1172,7 @@ func TestVerif_C21(t *testing.T) {
 		var log []string
 		desc := map[string]any{"side": fmt.Sprint(side), "max_remote_cfg": cfg, "steps": steps}
 		c.Describe(desc)
-		var raises, rejected, within, acceptedN, closedN int64
+		var raises, rejected, within, acceptedN, closedN, implicit int64
 		synctest.Test(t, func(t *testing.T) {
 			tapOpt, sentInitial := c21TapInitial(side)
 			tc := vlpScripted(t, side, permissiveTransportParameters, tapOpt, func(cf *Config) {
@@ -1323,6 +1329,9 @@ func TestVerif_C21(t *testing.T) {
 				for _, nm := range names {
 					if nm.kind == "stream_data_blocked" && nm.num >= before[nm.typ] {
 						continue
+					}
+					if nm.num > opened[nm.typ] {
+						implicit++
 					}
 					opened[nm.typ] = max(opened[nm.typ], nm.num+1)
 				}
@@ -1517,6 +1526,7 @@ func TestVerif_C21(t *testing.T) {
 		r.Event("remote_beyond_limit_rejected_with_stream_limit_error", rejected)
 		r.Event("remote_max_streams_raises_observed", raises)
 		r.Event("remote_streams_accepted", acceptedN)
+		r.Event("remote_frames_opening_lower_streams_implicitly", implicit)
 		r.Event("remote_streams_fully_closed_by_app", closedN)
 		r.Eval(raises > 0 || rejected > 0, "remote", strings.Join(log, ","))
 		if c.Index < 2 {
